@@ -238,3 +238,38 @@ Fixpoint child_free_stmt (c : stmt) : bool :=
   end
 with child_free (ss : stmts) : bool :=
   match ss with SNil => true | SCons c r => child_free_stmt c && child_free r end.
+
+(* The bodies of if/while statements, case arms and exception handlers as token ranges
+   (parent token, first token, end): the body occupies the tokens first .. end-1, the parent token is the
+   then/else/do/colon in front of it.  A line has a parent iff its first token lies in one of these ranges. *)
+Fixpoint spans_stmt (k : nat) (c : stmt) : list (nat * nat * nat) :=
+  match c with
+  | TSimple | TAssign => []
+  | TBlock b | TRepeat b => spans (k + 1) b
+  | TTry b c | TTryExcept b c => spans (k + 1) b ++ spans (k + 1 + length (render b) + 1) c
+  | TTryOn b h => spans (k + 1) b ++ spans_handlers (k + 1 + length (render b) + 1) h
+  | TIf c | TWhile c => (k + 2, k + 3, k + 3 + length (render_stmt c)) :: spans_stmt (k + 3) c
+  | TIfElse c1 c2 =>
+      let el := k + 3 + length (render_stmt c1) in
+      (k + 2, k + 3, el) :: spans_stmt (k + 3) c1 ++ (el, el + 1, el + 1 + length (render_stmt c2)) :: spans_stmt (el + 1) c2
+  | TCase a => spans_arms (k + 3) a
+  | TCaseElse a e => spans_arms (k + 3) a ++ spans (k + 3 + length (render_arms a) + 1) e
+  end
+with spans (k : nat) (ss : stmts) : list (nat * nat * nat) :=
+  match ss with
+  | SNil => []
+  | SCons c r => spans_stmt k c ++ spans (k + length (render_stmt c) + 1) r
+  end
+with spans_arms (k : nat) (a : arms) : list (nat * nat * nat) :=
+  match a with
+  | ANil => []
+  | ACons c r => (k + 1, k + 2, k + 2 + length (render_stmt c)) :: spans_stmt (k + 2) c ++ spans_arms (k + 2 + length (render_stmt c) + 1) r
+  end
+with spans_handlers (k : nat) (h : handlers) : list (nat * nat * nat) :=
+  match h with
+  | HNil => []
+  | HCons c r => (k + 4, k + 5, k + 5 + length (render_stmt c)) :: spans_stmt (k + 5) c ++ spans_handlers (k + 5 + length (render_stmt c) + 1) r
+  end.
+Definition body_spans (ss : stmts) : list (nat * nat * nat) := spans 1 ss.
+Definition in_spans (sp : list (nat * nat * nat)) (f : nat) : bool :=
+  existsb (fun x => let '(_, a, b) := x in (a <=? f) && (f <? b)) sp.
